@@ -34,8 +34,12 @@ def events(src, n):
         pa.pda_to_one_accepting_state_in_place(Y)
         return Y
 
+    def to_cfg_flag(X):
+        # the optional argument: an automaton that already accepts with an empty stack only, and says so
+        return pa.pda_to_cfg(pa.pda_to_accept_on_empty_stack(X), accepts_on_empty_stack=True)
+
     calls = [("one_accepting", one_acc), ("push_pop", pa.pda_to_push_pop),
-             ("empty_stack", pa.pda_to_accept_on_empty_stack), ("to_cfg", pa.pda_to_cfg)]
+             ("empty_stack", pa.pda_to_accept_on_empty_stack), ("to_cfg", pa.pda_to_cfg), ("to_cfg", to_cfg_flag)]
     for name, fn in calls:
         R, exc = guarded(lambda: fn(P), 60)
         ev = {"op": "pda_transform", "name": name, "pre": pre, "post": ab.pda(P), "exc": exc, "n": n,
